@@ -29,6 +29,7 @@ fn main() {
     let rep = match prop.as_str() {
         "C06" => verif_harness::props::c06::run(&cfg),
         "C14" => verif_harness::props::c14::run(&cfg),
+        "C16" => verif_harness::props::c16::run(&cfg),
         _ => {
             eprintln!("unknown property {prop}");
             std::process::exit(2);
